@@ -28,7 +28,6 @@ import common as C
 import c16_units as UU
 
 PID = "C17"
-TARGETS = ["Units/Gen_Tables.vo", "Units/Gen_Compound.vo", "Units/Dispatch.vo", "Props/C17.vo"]
 TABLE_CHECKS = ["classes_plain", "units_wf", "factor_ratio", "base_factor", "described", "display", "alias_display",
                 "alias_descr", "compound", "all_names"]
 CMPS = ["==", "!=", "<", "<=", ">", ">="]
@@ -370,16 +369,17 @@ def dump_readback(ctx):
 def main(tier: str) -> int:
     run = UU.SafeRun(PID, tier)
     try:
-        dump = UU.regen()
+        tree = UU.Tree()
+        dump = tree.prepare()
         U = UU.load_units()
     except Exception as exc:  # noqa
         run.violation("harness-cannot-load-units", f"translator / import failed: {type(exc).__name__}: {exc}", {}, found_input=False)
         return run.finish()
-    ctx = UU.Ctx(U, dump)
+    ctx = UU.Ctx(U, dump, tree)
     import time as _t
     phase = {"translate": round(_t.time() - run.t0, 1)}
     _t0 = _t.time()
-    proofs_ok = run.check_proofs(TARGETS, extra_tb=[
+    proofs_ok = UU.check_proofs(run, tree, extra_tb=[
         "reflective translator translator/dump_units.py (tables and candidate compound readings regenerated from the imported "
         "module on every run; every dumped entry read back against getattr on the live classes; every compound reading is "
         "re-checked in Coq for spelling, dimension and factor)",
@@ -394,7 +394,7 @@ def main(tier: str) -> int:
     run.cov["phase_s"] = phase
 
     # ---- table checks
-    coq_off, counts, err = UU.coq_table_offenders(PID, UU.C17_CHECKS)
+    coq_off, counts, err = UU.coq_table_offenders(PID, UU.C17_CHECKS, tree)
     py_off = UU.python_table_offenders(ctx)
     py_off["compound"] = compound_offenders(ctx)
     n_read, diffs = dump_readback(ctx)
@@ -532,8 +532,9 @@ def main(tier: str) -> int:
 
 def replay(path: str) -> int:
     body = json.loads(Path(path).read_text())
-    dump = UU.regen()
-    ctx = UU.Ctx(UU.load_units(), dump)
+    tree = UU.Tree()
+    dump = tree.prepare()
+    ctx = UU.Ctx(UU.load_units(), dump, tree)
     if "call" not in body:
         # a table finding: evaluate the table clauses on the live module again
         class Probe:
